@@ -17,21 +17,18 @@ import Dblib.Gen.Shape
 namespace Dblib.Props.C03
 open Dblib Dblib.Chan
 
-/-- `queueRx` / `lastPkgRx` are mentioned by the receive path, the constructor and an exported setter
-nobody in the library calls — by nothing on the sending side (in particular not by `Reset`) -/
+/-- nothing reachable from the calls of the sending side (`QueuePackage`, `SendRemainingPackets`,
+`SendPackage`, `Reset` and whatever helpers they call) mentions `queueRx` / `lastPkgRx`, and nobody in
+the library calls the exported setter of `lastPkgRx` -/
 theorem c03_receive_state_private :
-    Gen.Shape.rxStateTouchedBy =
-      ["Channel.SetLastPkgRx", "Channel.WritePacket", "Channel.tryParsePackage", "Conn.NewChannel"] ∧
-    Gen.Shape.setLastPkgRxCallers = [] := by
-  constructor <;> rfl
+    Gen.Shape.sendSideTouchesRxState = [] ∧ Gen.Shape.setLastPkgRxCallers = [] ∧
+    Gen.Shape.duplexEntriesFound = true := by
+  refine ⟨rfl, rfl, rfl⟩
 
-/-- the receive path (`WritePacket`, `tryParsePackage`) mentions no transmit-side field -/
+/-- nothing reachable from the reader's entry point `WritePacket` mentions a transmit-side field -/
 theorem c01_transmit_state_private :
-    "Channel.WritePacket" ∉ Gen.Shape.txStateTouchedBy ∧
-    "Channel.tryParsePackage" ∉ Gen.Shape.txStateTouchedBy ∧
-    "Channel.NextPackage" ∉ Gen.Shape.txStateTouchedBy ∧
-    "Channel.NextPackageUntil" ∉ Gen.Shape.txStateTouchedBy := by
-  decide
+    Gen.Shape.receiveSideTouchesTxState = [] ∧ Gen.Shape.duplexEntriesFound = true := by
+  refine ⟨rfl, rfl⟩
 
 variable {Pkg : Type}
 
